@@ -8,7 +8,7 @@ one() {
   rm -rf $SW; git -C /repo worktree add -q --detach $SW HEAD 2>/dev/null && git -C $SW apply $DST/patch.diff || { echo "$S APPLY-FAILED"; return; }
   RES="MISSED"; BY=""
   for c in $CHECKS; do
-    R=$( cd /verif && SPP_REPO=$SW /venv/bin/python check.py $c --tier quick 2>&1 | grep -E "^VIOLATION|^check |MACHINERY" )
+    R=$( cd ${VDIR:-/verif} && SPP_REPO=$SW /venv/bin/python check.py $c --tier quick 2>&1 | grep -E "^VIOLATION|^check |MACHINERY" )
     if echo "$R" | grep -q "^VIOLATION"; then RES="DETECTED"; BY="$BY $c($(echo "$R" | grep -c '^VIOLATION'))"; fi
     if echo "$R" | grep -q "MACHINERY"; then BY="$BY $c(machinery-failure)"; fi
   done
